@@ -196,6 +196,17 @@ def main(tier: str, replay: str | None) -> None:
             for fl in (FLOWS4 if ratify else FLOWS3):
                 jobs.append(("enumerate", dict(e["sc"], flow=fl), e["asis"], e["fix"]))
 
+    # the third party's offer in its other legal shape (addressed to the broadcast id, as the vendor schemes do):
+    # the model does not distinguish the two, so the prediction is the same
+    jobs += [(o + "+bcast3rd", dict(sc, third_dst="bcast"), pa, pf) for (o, sc, pa, pf) in list(jobs) if sc.get("third", -1) >= 0]
+
+    # the retry follows the first round closely (0 / 50 ms / 2 s after the attempts ended) instead of after every
+    # state timer has fired: "afterwards ... a new attempt can start" does not say "after a pause"
+    base_jobs = list(jobs)
+    for n, (o, sc, pa, pf) in enumerate(base_jobs):
+        if n % 2 == 0:
+            jobs.append((o + "+soon", dict(sc, retry_after=(0.0, 0.05, 2.0)[(n // 2) % 3]), pa, pf))
+
     import concurrent.futures as cf
     items, loop_exc, n_noisy = [], 0, 0
     with cf.ProcessPoolExecutor(max_workers=workers) as pool:
